@@ -427,6 +427,16 @@ impl MacroSim {
                     st.model.lookup(&key, got, &mid_snap, now, &mut sinfo);
                     let snap = Self::snapshot_from_listing(st, listing, Some((&key, tag, fp)));
                     st.model.store(&key, tag, fp, mem_aware, &snap, now, &mut sinfo);
+                    // the result had to be stored (wrapper semantics) but the key is not listed and
+                    // no eviction explains its absence
+                    if !listing.contains(&key) && sinfo.findings.iter().any(|f| matches!(f.clause, "count" | "mem-count")) {
+                        info.findings.push(l2(
+                            "not-stored",
+                            d.id,
+                            format!("{key:?} is stored by this call (result {:?}, cache_if verdict {}, policy / limits leave room)", fresh_ret, if d.cache_if { sc.cif.to_string() } else { "n/a".into() }),
+                            format!("listing {:?}", listing),
+                        ));
+                    }
                     // a refresh after a stale verdict must not leave the stale entry behind,
                     // even when the fresh value is too large to be cached
                     if info.inv_stale && sinfo.oversize_rejected && listing.contains(&key) {
